@@ -255,6 +255,46 @@ def run(ck):
         rc = rr.calls(r"Artifact<I, R>>::run_config$")
         pvs = rr.calls(r"machine::RunConfig::push_value$")
         ck.ob("DOM", rr.path, "response-pushed-before-run", len(rc) == 1 and len(pvs) >= 1 and all(rr.dominates(b, rc[0][0]) for (b, _) in pvs), "push_value(response) precedes run_config", rr.loc())
+        # the response code of a successful invoke tells the resumed contract whether its state was changed meanwhile: every
+        # value the response can take on the Success paths is `(.. | tag) << 40` / `tag << 40` with tag chosen by
+        # state_updated; a constant there hides a state change from a contract whose handles were just invalidated
+        if pvs:
+            rl = rules.root_local(rr, pvs[0][1]["args"][1])
+            tags = set()
+            for b2 in rr.reachable():
+                for st in rr.stmts(b2):
+                    k0 = op_const(st.get("rv", {}).get("a")) if st.get("rv", {}).get("k") == "use" else None
+                    if k0 is not None and const_int(k0) == 0x800000 and not st["lhs"][1]:
+                        tags.add(st["lhs"][0])
+            fw = rr.forward(tags) if tags else set()
+            nsh, bad = 0, []
+            for (b2, si, it) in (rr.defs().get(rl[0], []) if rl and not rl[1] else []):
+                if si == "t":
+                    continue
+                rv = it["rv"]
+                src = None
+                if rv.get("k") == "bin" and rv["op"].startswith("Shl"):
+                    nsh += 1
+                    q = op_place(rv["a"])
+                    if not (q and q[0] in fw):
+                        bad.append(b2)
+                    continue
+                if rv.get("k") == "use":
+                    if op_const(rv["a"]) is not None:
+                        bad.append(b2)
+                        continue
+                    src = op_place(rv["a"])
+                # follow one copy back to the shift
+                ds = rr.defs().get(src[0], []) if src and not src[1] else []
+                for (b3, s3, i3) in ds:
+                    if s3 != "t" and i3["rv"].get("k") == "bin" and i3["rv"]["op"].startswith("Shl"):
+                        nsh += 1
+                        q = op_place(i3["rv"]["a"])
+                        if not (q and q[0] in fw):
+                            bad.append(b3)
+            ck.ob("DEFUSE", rr.path, "success-response-carries-state-updated-bit", bool(tags) and nsh >= 2 and not bad,
+                  "both success responses (with and without returned data) are built from the tag chosen by state_updated" if tags and nsh >= 2 and not bad else
+                  "a response code of a successful invoke does not contain the state-updated tag (%d shifted values, %d without it / constant)" % (nsh, len(bad)), rr.loc(bad[0]) if bad else rr.loc())
         if rc:
             o = rr.origins(rc[0][1]["args"][2], deep=True)
             ck.ob("DEFUSE", rr.path, "runs-stored-config", ("field", "config") in o or ("arg", 1) in o, "the resumed configuration is the stored one", rr.loc(rc[0][0]))
